@@ -1,6 +1,7 @@
 """C02 — transfers: dispatch, search, routing, completion, failure clean-up, on real files and scripted transports."""
 import ast
 import hashlib
+import os
 import pathlib
 
 from vf import core
@@ -140,6 +141,11 @@ def run_scenario(ctx, base, sc):
         dst_path = pathlib.Path(dst_node.root, rel)
         src_path = pathlib.Path(src_node.root, rel)
         fod = dst_path.is_file()
+        if fod and src_path.is_file():
+            # the worst case for a transport that compares before it copies: the file at the destination is as old as the source
+            # (an earlier transfer preserved the time stamp), whatever the clock did while the world was built
+            st_ = os.stat(src_path)
+            os.utime(dst_path, ns=(st_.st_atime_ns, st_.st_mtime_ns))
         pre_bytes = dst_path.read_bytes() if fod else None
         nrow = w.ArchiveFileCopy.get_or_none(file=f, node=dst_node)
         nrow = nrow.has_file if nrow else None
@@ -313,6 +319,9 @@ def explore(ctx, n=None):
         {"local": True, "route_known": True, "src_type": "F", "dst_type": "A", "tools": ("rsync", {"rsync": "hang"}), "pre": "absent", "src": "ok", "name": "f", "size": 150, "bad_md5": False},
         {"local": False, "route_known": True, "src_type": "F", "dst_type": "A", "tools": ("bbcp", {"bbcp": "hang"}), "pre": "rec_X", "src": "ok", "name": "f", "size": 1, "bad_md5": False},
     ]
+    # F-C02b: the system's rsync over a corrupt file of the same length and age as the source (its quick check would skip it)
+    corpus += [{"local": True, "route_known": True, "src_type": st, "dst_type": dt, "tools": ("real", {}), "pre": "rec_X", "src": "ok", "name": nm, "size": sz, "bad_md5": False}
+               for st, dt in (("A", "F"), ("F", "A")) for nm, sz in (("f", 150), ("sub/f", 1))]
     # F-C02c: a corrupt copy on ANOTHER node of the destination group, an unregistered file at the destination path on ours
     corpus += [{"local": lc, "route_known": True, "src_type": "A", "dst_type": "A", "tools": ("both", {}), "pre": "stray", "src": "ok", "name": nm, "size": 150, "bad_md5": False,
                 "others": oth, "others_first": of, "dst_wants": "Y"} for lc in (True, False) for nm in ("f", "sub/f") for oth, of in ((["X"], False), (["X"], True), (["X", "N"], True))]
